@@ -36,7 +36,7 @@ CBMC_FLAGS = [
 class Instance:
     """One harness instance = one bounded obligation."""
 
-    def __init__(self, name, source, expect_panic=False, descr="", bounds="", timeout=600, mem_gb=12,
+    def __init__(self, name, source, expect_panic=False, descr="", bounds="", timeout=600, mem_gb=24,
                  contract="", function=""):
         self.name = name
         self.source = source            # Rust text declaring the harness (macro invocation)
